@@ -133,7 +133,74 @@ func blockClass(n int) string {
 	}
 }
 
+// c02SpecialMIC builds frames whose *correct* MIC has a special form - 00000000, ffffffff - which random
+// inputs produce once in 2^32 frames: for a LoRaWAN 1.1 uplink the two halves come from two keys, so
+// each half can be searched separately (2 x ~2^16 CMACs). A validator that treats such a value as
+// "not set" rejects a genuine frame.
+func c02SpecialMIC(c *core.Ctx, r *core.RNG, target [2]byte, pfx string) {
+	o := anyData()
+	o.mtype = 2 + 2*r.Intn(2)
+	o.maxFRM = 24
+	d := genDataCase(r, o)
+	p := micParams{v11: true, conf: r.U32Edge(), txDR: r.Byte(), txCh: r.Byte(), fKey: key16(r), sKey: key16(r)}
+	msg := d.Spec.Msg()
+	found := 0
+	for try := uint32(0); try < 1<<20 && found < 2; try++ {
+		k := p.fKey
+		if found == 1 {
+			k = p.sKey
+		}
+		k[0], k[1], k[2] = byte(try), byte(try>>8), byte(try>>16)
+		var m [4]byte
+		if found == 0 {
+			cf := spec.UplinkCMACF(k, d.Spec.DevAddr, d.Spec.FCnt, msg)
+			m[2], m[3] = cf[0], cf[1]
+			if cf == target {
+				p.fKey = k
+				found = 1
+				try = 0
+			}
+		} else {
+			full := spec.UplinkMIC(true, p.conf, p.txDR, p.txCh, p.fKey, k, d.Spec.ACK, d.Spec.DevAddr, d.Spec.FCnt, msg)
+			if full[0] == target[0] && full[1] == target[1] {
+				p.sKey = k
+				found = 2
+			}
+		}
+	}
+	if found < 2 {
+		c.Note("special-MIC search did not finish (inconclusive for this case)")
+		return
+	}
+	want := specDataMIC(d, p)
+	if want != [4]byte{target[0], target[1], target[0], target[1]} {
+		return
+	}
+	phy := d.Lib()
+	c.Eval(2)
+	if err := libSetMIC(&phy, true, p); err != nil || [4]byte(phy.MIC) != want {
+		c.Violate(pfx+"|special-mic|set", "frame whose specified MIC is %x: Set gives %x (%v)", want, [4]byte(phy.MIC), err)
+		return
+	}
+	rx := d.Lib()
+	rx.MIC = lorawan.MIC(want)
+	if ok, err := libValidateMIC(rx, true, p); err != nil || !ok {
+		c.Violate(fmt.Sprintf("%s|special-mic|genuine-frame-rejected|mic=%x", pfx, want), "a frame carrying its correct MIC %x is rejected by Validate (ok=%v err=%v) | msg=%x fcnt=%d", want, ok, err, msg, d.Spec.FCnt)
+	}
+	rx.MIC[1] ^= 0x40
+	if ok, _ := libValidateMIC(rx, true, p); ok {
+		c.Violate(pfx+"|special-mic|tampered-accepted", "MIC %x with one bit changed is accepted", want)
+	}
+	c.Shape("special-mic", fmt.Sprintf("%x", want))
+	c.Count("frames.with-special-mic", 1)
+}
+
 func runC02(c *core.Ctx) {
+	for k := int64(0); k < 8; k++ {
+		if c.Mine("special-mic", k) {
+			c02SpecialMIC(c, c.RNG("special-mic", k), [][2]byte{{0, 0}, {0xff, 0xff}}[k%2], "C02")
+		}
+	}
 	n := c.N(20000, 8000000)
 	for i := int64(0); i < n; i++ {
 		if !c.Mine("mic", i) {
